@@ -312,6 +312,9 @@ impl IncRun {
                 "hist": f.hist.iter().map(|(e, (a, en))| json!({"e": e, "amt": s(*a), "end": en})).collect::<Vec<_>>(),
                 "em": f.emitted.iter().map(|(e, x)| json!({"e": e, "x": s(*x)})).collect::<Vec<_>>()})).collect();
             out = json!({"pays": pays, "flows": fl});
+        } else if op == "claim" {
+            let e = rs.err();
+            out = json!({"why": if e.contains("Invalid reward") { "invalid-reward" } else if e.contains("ivide") { "divide-by-zero" } else { "other" }});
         }
         // the cw20 allowance left over is set-up noise: clear it so that later steps start clean
         let mut ev = serde_json::Map::new();
@@ -352,9 +355,45 @@ pub fn run_random(rec: &mut Rec, seed: u64, run: u64, nops: usize) {
     // and every eighth run starts with two creators using the same flow label: naming a flow by a shared label must
     // not let the creator of one of them expand into or close another one's
     let label_campaign = run % 8 == 1;
+    // two short scripted openings taken from the counterexamples of spec/MC_Emission.tla (observations beyond the listed
+    // properties): a flow that starts in an epoch one staker has already claimed, and a flow stretched in its last epoch
+    let start_witness = run % 16 == 2;
+    let stretch_witness = run % 16 == 10;
     let camp_asset = *gen::pick(&mut r, &["uusdc", "rwd2"]);
     let camp_dur = DURS[0];
     for step in 0..nops {
+        if (start_witness && step < 10) || (stretch_witness && step < 8) {
+            let fee: u128 = 1000;
+            let fa = p.fee_asset.clone();
+            let flow_funds = |asset: &str, a: u128| -> Value { if asset == fa { json!([{"d": asset, "amt": s(a)}]) } else { json!([{"d": fa, "amt": s(fee)}, {"d": asset, "amt": s(a)}]) } };
+            let a = 12_000u128 + r.gen_range(0..5_000u128);
+            let stake = |ui: usize, x: u128| json!({"amt": s(x), "allow": s(x), "dur": camp_dur.to_string(), "recv": USERS[ui]});
+            let id = p.flows().iter().map(|f| f.flow_id).max().unwrap_or(0);
+            if start_witness {
+                // user2 stakes alone; in the next epoch user1 claims (nothing yet), stakes as much, and a flow is opened that
+                // starts in this very epoch; one epoch later user1 claims before user2
+                match step {
+                    0 => p.step(rec, run, step, "open", 1, stake(1, 1000)),
+                    1 | 6 => p.step(rec, run, step, "newepoch", 0, json!({})),
+                    2 | 7 => p.step(rec, run, step, "snapshot", 2, json!({})),
+                    3 | 8 => p.step(rec, run, step, "claim", 0, json!({})),
+                    4 => p.step(rec, run, step, "open", 0, stake(0, 1000)),
+                    5 => p.step(rec, run, step, "openflow", 2, json!({"asset": camp_asset, "amt": s(a), "funds": flow_funds(camp_asset, a), "len": 2, "start": 0})),
+                    _ => p.step(rec, run, step, "claim", 1, json!({})),
+                }
+            } else {
+                match step {
+                    0 => p.step(rec, run, step, "open", 0, stake(0, 1000)),
+                    1 => p.step(rec, run, step, "openflow", 2, json!({"asset": camp_asset, "amt": s(a), "funds": flow_funds(camp_asset, a), "len": 2, "start": 0})),
+                    2 | 3 => p.step(rec, run, step, "newepoch", 0, json!({})),
+                    4 => p.step(rec, run, step, "expandflow", 1, json!({"asset": camp_asset, "amt": "1500", "id": id, "ext": 2, "funds": [{"d": camp_asset, "amt": "1500"}]})),
+                    5 => p.step(rec, run, step, "snapshot", 2, json!({})),
+                    6 => p.step(rec, run, step, "claim", 0, json!({})),
+                    _ => p.step(rec, run, step, "newepoch", 0, json!({})),
+                }
+            }
+            continue;
+        }
         if label_campaign && step < 8 {
             let fee: u128 = 1000;
             let fa = p.fee_asset.clone();
